@@ -29,6 +29,10 @@ class MacroPolicy(semtables.LogicPolicy):
     def limit_for(self, body, blk):
         return 10
 
+    def inline(self, path, body):
+        # private helpers of the macro modules (a per-element routine shared by two variants, say) are part of the macro
+        return semtables.LogicPolicy.inline(self, path, body) or (path.startswith(DM) and str(body.d.get("vis", "")).startswith("Restricted"))
+
     def stub(self, interp, st, path, c, args, t, caller):
         for nm in ("run_raw", "eval_ident", "setup_context", "new_child", "bind_param"):
             if path.endswith("::" + nm):
